@@ -319,6 +319,8 @@ impl ThrCheck {
             "rwlock.write",
             "rwlock.write",
             "rwlock.read",
+            "cmd.settled",
+            "cmd.settled",
             "cmd.wake.before_send",
             "cmd.wake.after_send",
             "cmd.wake.after_store",
